@@ -131,6 +131,15 @@ def apply_contract(interp, c, fv, args, kwargs, node):
                 continue
             if not (isinstance(psh, tuple) and psh and psh[0] == "opt"):
                 vars_[nm] = interp.need(v)
+    # ghost parameters of the callee: the instance the caller names for this call site, else an arbitrary value
+    # (named by the contract of the function under verification; it also covers call sites in callees it inlines)
+    caller = interp.reg.contracts.get(interp.current_target) if interp.current_target else None
+    binds = (caller.call_ghost.get(c.key, {}) if caller is not None else {})
+    for g, sh in c.ghost_params.items():
+        if g in binds and getattr(interp, "_call_env", None) is not None:
+            vars_[g] = interp.sub(True).eval(binds[g], Env(interp._call_env, dict(getattr(interp, "ghost_args", {}))))
+        else:
+            vars_[g] = interp.fresh(sh, "ghostarg." + g)
     env = Env(None, dict(vars_))
     spec = interp.sub(True)
     old = {k: snapshot(v) for k, v in vars_.items()}
@@ -154,7 +163,9 @@ def apply_contract(interp, c, fv, args, kwargs, node):
     # bind_params / names may have been rebound by havoc of plain names: not visible to caller (python semantics)
     if d == 0:
         result = NONE
-        if c.returns and c.returns != "none":
+        if c.returns_expr is not None:
+            result = spec.eval(c.returns_expr, env)
+        elif c.returns and c.returns != "none":
             result = interp.fresh(c.returns, "ret_" + c.key.split(":")[-1].split(".")[-1])
         env.vars["result"] = result
         for k, e in enumerate(c.ensures):
